@@ -224,5 +224,274 @@ pub open spec fn corr_spec(w: Seq<P>, mp: int, o: U) -> bool {
     }
 //@end
 
+
+// ---- regression of the first series (y) on the second (x) over the pairwise-complete pairs of the window (C04):
+// beta = (n Sxy - Sx Sy) / (n Sxx - Sx^2), alpha = (Sy - beta Sx) / n, SSE = Syy - alpha Sy - beta Sxy.
+// In the pair sums a = y (first series), b = x (second series).  When the x values have no spread (n Sxx == Sx^2, in particular
+// n <= 1) and the numerator vanishes with it, the fit is undefined: all three are null (0 / 0), never a number.
+pub open spec fn null3(o: (U, U, U)) -> bool { isnull(o.0) && isnull(o.1) && isnull(o.2) }
+pub open spec fn regx_spec(w: Seq<P>, mp: int, o: (U, U, U)) -> bool {
+    let n = npair(w);
+    let nr = n as real;
+    let d = nr * sbb(w) - sb(w) * sb(w);
+    let num = nr * sab(w) - sa(w) * sb(w);
+    &&& n < mp ==> null3(o)
+    &&& (n >= mp && d != 0real) ==> {
+        let beta = num / d;
+        let alpha = (sa(w) - beta * sb(w)) / nr;
+        &&& !isnull(o.0) && !isnull(o.1) && !isnull(o.2)
+        &&& oval(o.1) == beta && oval(o.0) == alpha && oval(o.2) == saa(w) - alpha * sa(w) - beta * sab(w)
+    }
+    &&& (n >= mp && d == 0real && num == 0real) ==> null3(o)           // undefined fit: null, never a number
+}
+pub proof fn lemma_cnt0_ps0(w: Seq<Option<real>>, k: int)
+    requires cnt(w) == 0,
+    ensures ps(w, k) == 0real,
+    decreases w.len()
+{
+    if w.len() > 0 { lemma_cnt_le_len(w.drop_last()); lemma_cnt0_ps0(w.drop_last(), k); }
+}
+
+//@fn name=ts_vregx_all crate=tea-rolling ctx="pub trait RollingValidRegBinary" props=C04,C05,C06,C08 arith=C05
+//@types T::Inner=${TI}; T2::Inner=${TI}
+//@sig fn ts_vregx_all<V: RollingDrivers<T>, V2: Vec1View<T2>, O: Vec1<(U, U, U)>>(this: &V, other: &V2, window: usize, min_periods: Option<usize>) -> (r: O)
+//@spec
+    requires
+        canon_seq(this.view()), canon_seq(other.view()),
+        other.view().len() >= this.view().len(),          // equal-length series (a shorter second series is a clean panic, C10)
+        window >= 1 || this.view().len() == 0,            // a zero window on a non-empty series is a clean panic of the driver
+        this.view().len() <= 0x7fff_ffff,      // A-LEN
+    ensures
+        window >= 1 ==> r.oview().len() == this.view().len(),                                                                        // #C05 one_output_per_input
+        window >= 1 ==> forall|i: int| 0 <= i < this.view().len() ==>
+            regx_spec(wnd(zipv(this.view(), other.view()), window, i), mp_eff(min_periods, window, 0), #[trigger] r.oview()[i]),       // #C04,C05,C06 value_and_mask
+//@closure 1 name=CloVregxAll trait="RollingFn<P, (U, U, U)>" params="remove_values: Option<P>, v: P" ret="(res: (U, U, U))" push="Call { rm: remove_values, v: v, out: __r }" callty="Call<P, (U, U, U)>" caps="mut sum_a: f64, mut sum_b: f64, mut sum_b2: f64, mut sum_ab: f64, mut sum_a2: f64, mut n: usize, min_periods: usize"
+//@closure 1 extra
+    open spec fn hist(&self) -> Seq<Call<P, (U, U, U)>> { self.h@ }
+    open spec fn elem_ok(v: P) -> bool { canon2(v) }
+    open spec fn cap_len() -> nat { 0x7fff_ffff }
+//@closure 1 inv
+        let w = win(self.h@);
+        &&& hist_wf(self.h@) && (forall|i: int| 0 <= i < self.h@.len() ==> canon2(#[trigger] adds(self.h@)[i]))
+        &&& self.n as int == npair(w)                                       // #C04 state_describes_window
+        &&& rv(self.sum_a) == sa(w) && !nan(self.sum_a)                     // #C04 state_describes_window
+        &&& rv(self.sum_b) == sb(w) && !nan(self.sum_b)                     // #C04 state_describes_window
+        &&& rv(self.sum_ab) == sab(w) && !nan(self.sum_ab)                  // #C04 state_describes_window
+        &&& rv(self.sum_a2) == saa(w) && !nan(self.sum_a2)                  // #C04 state_describes_window
+        &&& rv(self.sum_b2) == sbb(w) && !nan(self.sum_b2)                  // #C04 state_describes_window
+        &&& outs_ok(self.h@, |w: Seq<P>, o: (U, U, U)| regx_spec(w, self.min_periods as int, o))
+//@at closure 1 first
+        let ghost w0 = win(self.h@);
+        let ghost wp = w0.push(v);
+        broadcast use a_real, a_real_cmp, ax_div_nan;
+        proof {
+            ax_lits();
+            lemma_step_map(self.h@, remove_values, v, |p: P| ga(p));
+            lemma_step_map(self.h@, remove_values, v, |p: P| gb(p));
+            lemma_step_map(self.h@, remove_values, v, |p: P| gab(p));
+            lemma_step_map(self.h@, remove_values, v, |p: P| gaa(p));
+            lemma_step_map(self.h@, remove_values, v, |p: P| gbb(p));
+            reveal_with_fuel(rpow, 3);
+            lemma_counts_agree(w0); lemma_counts_agree(wp); lemma_counts_agree(win_after(self.h@, remove_values, v));
+            if remove_values.is_some() { assert(remove_values.unwrap() == adds(self.h@).push(v)[nrm(self.h@) as int]); }
+            if npair(wp) == 0 {
+                lemma_cnt0_ps0(mvals(wp, |p: P| ga(p)), 1); lemma_cnt0_ps0(mvals(wp, |p: P| gb(p)), 1);
+                lemma_cnt0_ps0(mvals(wp, |p: P| gab(p)), 1); lemma_cnt0_ps0(mvals(wp, |p: P| gbb(p)), 1);
+            }
+        }
+//@at closure 1 last
+        proof {
+            let c = Call { rm: remove_values, v: v, out: __r };
+            lemma_fifo_step(self.h@, c);
+            assert(adds(self.h@.push(c)) =~= adds(self.h@).push(v));
+            assert(regx_spec(wp, self.min_periods as int, __r));       // #C04,C05 output_is_window_statistic
+            lemma_outs_step(self.h@, c, |w: Seq<P>, o: (U, U, U)| regx_spec(w, self.min_periods as int, o));
+        }
+//@at body first
+    let ghost mp0 = min_periods;
+    proof { ax_lits(); }
+//@at body last
+    proof {
+        let h = __clo1.h@;
+        let s = outs(h);
+        let z = zipv(this.view(), other.view());
+        if window >= 1 {
+            assert(__ret.oview() =~= s);
+            assert forall|i: int| 0 <= i < this.view().len() implies regx_spec(wnd(z, window, i), mp_eff(mp0, window, 0), #[trigger] __ret.oview()[i]) by {
+                lemma_fifo_window_is_wnd(h, z, window, i);
+                assert(regx_spec(fifo_window(h, i), __clo1.min_periods as int, h[i].out));
+            }
+        }
+    }
+//@end
+
+
+// the slope and the intercept alone (ts_vregx_beta / ts_vregx_alpha): the same closed forms as in the triple
+pub open spec fn regx_beta_spec(w: Seq<P>, mp: int, o: U) -> bool {
+    let n = npair(w);
+    let nr = n as real;
+    let d = nr * sbb(w) - sb(w) * sb(w);
+    let num = nr * sab(w) - sa(w) * sb(w);
+    &&& n < mp ==> isnull(o)
+    &&& (n >= mp && d != 0real) ==> !isnull(o) && oval(o) == num / d
+    &&& (n >= mp && d == 0real && num == 0real) ==> isnull(o)           // undefined fit: null, never a number
+}
+pub open spec fn regx_alpha_spec(w: Seq<P>, mp: int, o: U) -> bool {
+    let n = npair(w);
+    let nr = n as real;
+    let d = nr * sbb(w) - sb(w) * sb(w);
+    let num = nr * sab(w) - sa(w) * sb(w);
+    &&& n < mp ==> isnull(o)
+    &&& (n >= mp && d != 0real) ==> !isnull(o) && oval(o) == (sa(w) - (num / d) * sb(w)) / nr
+    &&& (n >= mp && d == 0real && num == 0real) ==> isnull(o)           // undefined fit: null, never a number
+}
+
+//@fn name=ts_vregx_beta_to crate=tea-rolling ctx="pub trait RollingValidRegBinary" props=C04,C05,C06,C08 arith=C05
+//@types T::Inner=${TI}; T2::Inner=${TI}
+//@sig fn ts_vregx_beta_to<V: RollingDrivers<T>, V2: Vec1View<T2>, O: Vec1<U>>(this: &V, other: &V2, window: usize, min_periods: Option<usize>, out: Option<&mut O::Buf>) -> (r: Option<O>)
+//@spec
+    requires
+        canon_seq(this.view()), canon_seq(other.view()),
+        other.view().len() >= this.view().len(),          // equal-length series (a shorter second series is a clean panic, C10)
+        out matches Some(o) ==> buf_fresh(o, this.view().len()),
+        (window == 0 && out.is_none() && this.view().len() > 0) ==> panic_allowed(),
+        this.view().len() <= 0x7fff_ffff,      // A-LEN
+    ensures
+        window >= 1 ==> delivered_each(r, match out { Some(o) => Some(final(o).written()), None => None }, this.view().len(),       // #C05 one_output_per_input
+            |i: int, o: U| regx_beta_spec(wnd(zipv(this.view(), other.view()), window, i), mp_eff(min_periods, window, 0), o)),                // #C04,C05,C06 value_and_mask
+//@closure 1 name=CloVregxBeta trait="RollingFn<P, U>" params="remove_values: Option<P>, v: P" ret="(res: U)" push="Call { rm: remove_values, v: v, out: __r }" callty="Call<P, U>" caps="mut sum_a: f64, mut sum_b: f64, mut sum_b2: f64, mut sum_ab: f64, mut n: usize, min_periods: usize"
+//@closure 1 extra
+    open spec fn hist(&self) -> Seq<Call<P, U>> { self.h@ }
+    open spec fn elem_ok(v: P) -> bool { canon2(v) }
+    open spec fn cap_len() -> nat { 0x7fff_ffff }
+//@closure 1 inv
+        let w = win(self.h@);
+        &&& hist_wf(self.h@) && (forall|i: int| 0 <= i < self.h@.len() ==> canon2(#[trigger] adds(self.h@)[i]))
+        &&& self.n as int == npair(w)                                       // #C04 state_describes_window
+        &&& rv(self.sum_a) == sa(w) && !nan(self.sum_a)                     // #C04 state_describes_window
+        &&& rv(self.sum_b) == sb(w) && !nan(self.sum_b)                     // #C04 state_describes_window
+        &&& rv(self.sum_ab) == sab(w) && !nan(self.sum_ab)                  // #C04 state_describes_window
+        &&& rv(self.sum_b2) == sbb(w) && !nan(self.sum_b2)                  // #C04 state_describes_window
+        &&& outs_ok(self.h@, |w: Seq<P>, o: U| regx_beta_spec(w, self.min_periods as int, o))
+//@at closure 1 first
+        let ghost w0 = win(self.h@);
+        let ghost wp = w0.push(v);
+        broadcast use a_real, a_real_cmp, ax_div_nan;
+        proof {
+            ax_lits();
+            lemma_step_map(self.h@, remove_values, v, |p: P| ga(p));
+            lemma_step_map(self.h@, remove_values, v, |p: P| gb(p));
+            lemma_step_map(self.h@, remove_values, v, |p: P| gab(p));
+            lemma_step_map(self.h@, remove_values, v, |p: P| gbb(p));
+            reveal_with_fuel(rpow, 3);
+            lemma_counts_agree(w0); lemma_counts_agree(wp); lemma_counts_agree(win_after(self.h@, remove_values, v));
+            if remove_values.is_some() { assert(remove_values.unwrap() == adds(self.h@).push(v)[nrm(self.h@) as int]); }
+            if npair(wp) == 0 {
+                lemma_cnt0_ps0(mvals(wp, |p: P| ga(p)), 1); lemma_cnt0_ps0(mvals(wp, |p: P| gb(p)), 1);
+                lemma_cnt0_ps0(mvals(wp, |p: P| gab(p)), 1); lemma_cnt0_ps0(mvals(wp, |p: P| gbb(p)), 1);
+            }
+        }
+//@at closure 1 last
+        proof {
+            let c = Call { rm: remove_values, v: v, out: __r };
+            lemma_fifo_step(self.h@, c);
+            assert(adds(self.h@.push(c)) =~= adds(self.h@).push(v));
+            assert(regx_beta_spec(wp, self.min_periods as int, __r));       // #C04,C05 output_is_window_statistic
+            lemma_outs_step(self.h@, c, |w: Seq<P>, o: U| regx_beta_spec(w, self.min_periods as int, o));
+        }
+//@at body first
+    let ghost mp0 = min_periods;
+    let ghost out0 = out;
+    proof { ax_lits(); }
+//@at body last
+    proof {
+        let h = __clo1.h@;
+        let s = outs(h);
+        let z = zipv(this.view(), other.view());
+        if window >= 1 {
+            let p = |i: int, o: U| regx_beta_spec(wnd(z, window, i), mp_eff(mp0, window, 0), o);
+            assert forall|i: int| 0 <= i < s.len() implies p(i, #[trigger] s[i]) by {
+                lemma_fifo_window_is_wnd(h, z, window, i);
+                assert(regx_beta_spec(fifo_window(h, i), __clo1.min_periods as int, h[i].out));
+            }
+            lemma_delivered_each(__ret, match out0 { Some(o) => Some(final(o).written()), None => None }, s, p);
+        }
+    }
+//@end
+
+//@fn name=ts_vregx_alpha_to crate=tea-rolling ctx="pub trait RollingValidRegBinary" props=C04,C05,C06,C08 arith=C05
+//@types T::Inner=${TI}; T2::Inner=${TI}
+//@sig fn ts_vregx_alpha_to<V: RollingDrivers<T>, V2: Vec1View<T2>, O: Vec1<U>>(this: &V, other: &V2, window: usize, min_periods: Option<usize>, out: Option<&mut O::Buf>) -> (r: Option<O>)
+//@spec
+    requires
+        canon_seq(this.view()), canon_seq(other.view()),
+        other.view().len() >= this.view().len(),          // equal-length series (a shorter second series is a clean panic, C10)
+        out matches Some(o) ==> buf_fresh(o, this.view().len()),
+        (window == 0 && out.is_none() && this.view().len() > 0) ==> panic_allowed(),
+        this.view().len() <= 0x7fff_ffff,      // A-LEN
+    ensures
+        window >= 1 ==> delivered_each(r, match out { Some(o) => Some(final(o).written()), None => None }, this.view().len(),       // #C05 one_output_per_input
+            |i: int, o: U| regx_alpha_spec(wnd(zipv(this.view(), other.view()), window, i), mp_eff(min_periods, window, 0), o)),                // #C04,C05,C06 value_and_mask
+//@closure 1 name=CloVregxAlpha trait="RollingFn<P, U>" params="remove_values: Option<P>, v: P" ret="(res: U)" push="Call { rm: remove_values, v: v, out: __r }" callty="Call<P, U>" caps="mut sum_a: f64, mut sum_b: f64, mut sum_b2: f64, mut sum_ab: f64, mut n: usize, min_periods: usize"
+//@closure 1 extra
+    open spec fn hist(&self) -> Seq<Call<P, U>> { self.h@ }
+    open spec fn elem_ok(v: P) -> bool { canon2(v) }
+    open spec fn cap_len() -> nat { 0x7fff_ffff }
+//@closure 1 inv
+        let w = win(self.h@);
+        &&& hist_wf(self.h@) && (forall|i: int| 0 <= i < self.h@.len() ==> canon2(#[trigger] adds(self.h@)[i]))
+        &&& self.n as int == npair(w)                                       // #C04 state_describes_window
+        &&& rv(self.sum_a) == sa(w) && !nan(self.sum_a)                     // #C04 state_describes_window
+        &&& rv(self.sum_b) == sb(w) && !nan(self.sum_b)                     // #C04 state_describes_window
+        &&& rv(self.sum_ab) == sab(w) && !nan(self.sum_ab)                  // #C04 state_describes_window
+        &&& rv(self.sum_b2) == sbb(w) && !nan(self.sum_b2)                  // #C04 state_describes_window
+        &&& outs_ok(self.h@, |w: Seq<P>, o: U| regx_alpha_spec(w, self.min_periods as int, o))
+//@at closure 1 first
+        let ghost w0 = win(self.h@);
+        let ghost wp = w0.push(v);
+        broadcast use a_real, a_real_cmp, ax_div_nan;
+        proof {
+            ax_lits();
+            lemma_step_map(self.h@, remove_values, v, |p: P| ga(p));
+            lemma_step_map(self.h@, remove_values, v, |p: P| gb(p));
+            lemma_step_map(self.h@, remove_values, v, |p: P| gab(p));
+            lemma_step_map(self.h@, remove_values, v, |p: P| gbb(p));
+            reveal_with_fuel(rpow, 3);
+            lemma_counts_agree(w0); lemma_counts_agree(wp); lemma_counts_agree(win_after(self.h@, remove_values, v));
+            if remove_values.is_some() { assert(remove_values.unwrap() == adds(self.h@).push(v)[nrm(self.h@) as int]); }
+            if npair(wp) == 0 {
+                lemma_cnt0_ps0(mvals(wp, |p: P| ga(p)), 1); lemma_cnt0_ps0(mvals(wp, |p: P| gb(p)), 1);
+                lemma_cnt0_ps0(mvals(wp, |p: P| gab(p)), 1); lemma_cnt0_ps0(mvals(wp, |p: P| gbb(p)), 1);
+            }
+        }
+//@at closure 1 last
+        proof {
+            let c = Call { rm: remove_values, v: v, out: __r };
+            lemma_fifo_step(self.h@, c);
+            assert(adds(self.h@.push(c)) =~= adds(self.h@).push(v));
+            assert(regx_alpha_spec(wp, self.min_periods as int, __r));       // #C04,C05 output_is_window_statistic
+            lemma_outs_step(self.h@, c, |w: Seq<P>, o: U| regx_alpha_spec(w, self.min_periods as int, o));
+        }
+//@at body first
+    let ghost mp0 = min_periods;
+    let ghost out0 = out;
+    proof { ax_lits(); }
+//@at body last
+    proof {
+        let h = __clo1.h@;
+        let s = outs(h);
+        let z = zipv(this.view(), other.view());
+        if window >= 1 {
+            let p = |i: int, o: U| regx_alpha_spec(wnd(z, window, i), mp_eff(mp0, window, 0), o);
+            assert forall|i: int| 0 <= i < s.len() implies p(i, #[trigger] s[i]) by {
+                lemma_fifo_window_is_wnd(h, z, window, i);
+                assert(regx_alpha_spec(fifo_window(h, i), __clo1.min_periods as int, h[i].out));
+            }
+            lemma_delivered_each(__ret, match out0 { Some(o) => Some(final(o).written()), None => None }, s, p);
+        }
+    }
+//@end
+
+
 } // verus!
 fn main() {}
